@@ -200,7 +200,9 @@ def param_variants(name, rule):
 def hook_cells(kind):
     cells = []
     creds = ['none', 'wrong-user', 'wrong-pw', 'right']
-    idents = ['match', 'other-owner', 'other-slug']
+    # a repository identity that differs, and one that is not there at all
+    idents = ['match', 'other-owner', 'other-slug', 'absent', 'null',
+              'empty', 'id-missing', 'id-empty', 'id-null']
     bb_events = ['repo:commit_status_created', 'repo:commit_status_updated',
                  'repo:commit_status_created:INPROGRESS',
                  'pullrequest:comment_created', 'pullrequest:updated',
@@ -495,6 +497,31 @@ class Matrix:
                     'id': 1, 'head_sha': sha, 'head_branch': 'q/4.3',
                     'status': 'completed', 'conclusion': 'success'}})
                 expect_job = (CommitJob, sha)
+        ident = cell['ident']
+        if ident == 'absent':
+            del data['repository']
+        elif ident == 'null':
+            data['repository'] = None
+        elif ident == 'empty':
+            data['repository'] = {}
+        elif ident.startswith('id-'):
+            # the fields the route identifies the repository by
+            rep = data['repository']
+            if route == '/github':
+                if ident == 'id-missing':
+                    rep.pop('full_name')
+                else:
+                    rep['full_name'] = '' if ident == 'id-empty' else None
+            else:
+                if ident == 'id-missing':
+                    rep.pop('name')
+                    rep['owner'] = {}
+                elif ident == 'id-empty':
+                    rep['name'] = ''
+                    rep['owner'] = {'username': ''}
+                else:
+                    rep['name'] = None
+                    rep['owner'] = {'username': None}
         allowed = cell['cred'] == 'right' and cell['ident'] == 'match' and (
             (route == '/github') == (self.kind == 'github'))
         if route == '/bitbucket' and self.kind == 'github':
